@@ -29,7 +29,7 @@ type c03W struct {
 	Avoided    []string  `json:"avoided_shapes,omitempty"`
 }
 
-var hUniverse = universe{Graphs: gen.HGraphs, VIDs: append(append([]string{}, gen.HVIDs...), "ghost"), EIDs: gen.HEIDs, VLabels: gen.VLabels, ELabels: gen.ELabels}
+var hUniverse = universe{Graphs: gen.HGraphUniverse, VIDs: append(append([]string{}, gen.HVIDs...), "ghost"), EIDs: gen.HEIDs, VLabels: gen.VLabels, ELabels: gen.ELabels}
 
 func init() {
 	Register(&Scenario{
@@ -347,6 +347,28 @@ func (h *histRunner) timestamps() map[string]string {
 
 // step applies one op to both sides and judges it. Returns a violation or nil.
 func (h *histRunner) step(prop string, i int, op gen.HOp) *Violation {
+	if h.disk.CommitOnError && (op.Op == "bulk" || op.Op == "batch") && len(op.V)+len(op.E) > 1 {
+		// A driver-level call with an invalid element fails as a whole. Whether
+		// its valid siblings are stored depends on the key-value store (Badger
+		// and Bolt discard the write batch of a failed callback, LevelDB and
+		// Pebble have already applied it): unspecified, so with the committing
+		// disk the call is reduced to its invalid elements.
+		var bv []*model.Vertex
+		var be []*model.Edge
+		for _, v := range op.V {
+			if !validVertex(v) {
+				bv = append(bv, v)
+			}
+		}
+		for _, e := range op.E {
+			if !validEdge(e) {
+				be = append(be, e)
+			}
+		}
+		if len(bv)+len(be) > 0 {
+			op.V, op.E = bv, be
+		}
+	}
 	before := h.timestamps()
 	for g, ts := range before {
 		if h.seenTS[g] == nil {
